@@ -28,6 +28,57 @@ def record_packet_times(fl):
     return out
 
 
+def first_record_times(fl):
+    """timestamps the synthetic handshake may carry: those of the input packets of the first exported record.  Records become exportable in capture
+    order as each direction's contiguous byte prefix grows (the directions are independent, full duplex); two release disciplines are accepted - as soon
+    as a record is complete, or when the buffered prefix ends on a record boundary - and a leading empty application record (it opens the conversation but
+    yields no data packet) extends the allowed set up to the first record that carries data."""
+    recs = {"c": [], "s": []}
+    for e in fl.conn.events:
+        recs[e.dir].append(e)
+    segs = {"c": [], "s": []}
+    for it in fl.items:
+        if it.seg is not None and it.seg.payload:
+            segs[it.seg.dir].append((it.seg.woff, it.seg.woff + len(it.seg.payload), it.ts))
+
+    def times(e):
+        return {t for (x, y, t) in segs[e.dir] if x < e.woff + len(e.wire) and y > e.woff}
+    got = {"c": [], "s": []}
+    prefix = {"c": 0, "s": 0}
+    done_eager = {"c": 0, "s": 0}
+    done_aligned = {"c": 0, "s": 0}
+    eager, aligned = [], []
+    for it in fl.items:
+        s_ = it.seg
+        if s_ is None or not s_.payload:
+            continue
+        d = s_.dir
+        got[d].append((s_.woff, s_.woff + len(s_.payload)))
+        moved = True
+        while moved:
+            moved = False
+            for a, b in got[d]:
+                if a <= prefix[d] < b:
+                    prefix[d] = b
+                    moved = True
+        ends = [e.woff + len(e.wire) for e in recs[d]]
+        while done_eager[d] < len(recs[d]) and ends[done_eager[d]] <= prefix[d]:
+            eager.append(recs[d][done_eager[d]])
+            done_eager[d] += 1
+        if prefix[d] in ends:
+            k = ends.index(prefix[d]) + 1
+            aligned += recs[d][done_aligned[d]:k]
+            done_aligned[d] = max(done_aligned[d], k)
+    allowed = set()
+    for order in (eager, aligned):
+        for e in order:
+            if e.kind == "app":
+                allowed |= times(e)
+                if e.plain:
+                    break
+    return allowed
+
+
 def check_tls_flow(an, fl, mapargs=None):
     ep = fl.ep
     kc, ks = gen.flow_keys(fl, mapargs)
@@ -75,22 +126,10 @@ def check_tls_flow(an, fl, mapargs=None):
             first_rec_times = times
         off[d] += len(p.payload)
     if hs_times and first_rec_times is not None:
-        # the first exported record may be an empty application record (it opens the conversation but yields no data packet): allow the
-        # times of every application record up to and including the first one that carries data
-        segs = {"c": [], "s": []}
-        for it in fl.items:
-            if it.seg is not None and it.seg.payload:
-                segs[it.seg.dir].append((it.seg.woff, it.seg.woff + len(it.seg.payload), it.ts))
-        allowed = set(first_rec_times)
-        for e in fl.conn.events:
-            if e.kind == "app":
-                allowed |= {t for (x, y, t) in segs[e.dir] if x < e.woff + len(e.wire) and y > e.woff}
-                if e.plain:
-                    break
-        first_rec_times = allowed
+        allowed = first_record_times(fl)
         for t in hs_times[:3]:
-            if t not in first_rec_times:
-                msgs.append(f"synthetic handshake packet has timestamp {t}, the first exported record was carried by input packets at {sorted(first_rec_times)[:6]}")
+            if t not in allowed:
+                msgs.append(f"synthetic handshake packet has timestamp {t}, the first exported record was carried by input packets at {sorted(allowed)[:6]}")
                 break
     return msgs[:4], n
 
@@ -142,7 +181,7 @@ def eval_case(case, rng):
     if quic:
         fl = gen.random_quic_flow(rng, napp=rng.choice([3, 8, 15]))
     else:
-        fl = gen.random_tls_flow(rng, nmax=12, big=rng.random() < 0.3, segkinds=tcpcap.CUT_KINDS, min_records=1, perturb=rng.random() < 0.35)
+        fl = gen.random_tls_flow(rng, nmax=12, big=rng.random() < 0.3, segkinds=tcpcap.CUT_KINDS, min_records=1, perturb=rng.random() < 0.35, duplex=rng.random() < 0.4)
     items = scene.merge([fl], rng, "concat")
     scene.stamp(items, rng, style)
     extra, mapargs = [], None
